@@ -26,13 +26,19 @@ class KeyPool:
         if want:
             spec = [s for s in spec if s[0] in want] + [w for w in want if isinstance(w, tuple)]
         self.keys = {name: K.gen_key(kind, param, ctx.scratch) for name, kind, param in spec}
+        # the key types the quick pool leaves out: used by a few suites with a lighter case set, so that a change confined
+        # to RSA-PSS keys, P-384 / P-521 / secp256k1 or long HMAC keys is seen on every run and not only in the thorough tier
+        self.rare = {}
+        if tier != "thorough" and not want:
+            self.rare = {name: K.gen_key(kind, param, ctx.scratch) for name, kind, param in
+                         [("rsapss2048", "rsapss", 2048), ("p384", "ec", "P-384"), ("p521", "ec", "P-521"), ("k256", "ec", "secp256k1"), ("oct64", "oct", 64)]}
         self.oracle = oracle
         self.sig_cache = {}
         self.okid = {}
 
     def sign(self, name, alg, msg):
         """valid raw signature (b64url text) by key `name` for `alg` over msg, or None"""
-        key = self.keys[name]
+        key = self.keys[name] if name in self.keys else self.rare[name]
         if key.kind == "oct":
             if alg not in HS_MIN:
                 return None
@@ -294,6 +300,32 @@ def verify_sig(world, pool, tier, rng, provider="openssl"):
     world.op("prov name " + hx(provider.encode()), tag="cfg")
     thorough = tier == "thorough"
     names = list(pool.keys)
+    # the rarer key types with a lighter mutation set
+    rs = 60
+    for rname, rkey in getattr(pool, "rare", {}).items():
+        rit = world.add_key(rs, rkey, private=(rkey.kind == "oct"), alg_attr=None)
+        rs += 1
+        for alg in rkey.admissible_algs():
+            if provider == "gnutls" and alg == "ES256K":
+                continue
+            msg, sig = signed_token(pool, rname, alg, payload={"sub": "rare", "n": 2})
+            if sig is None:
+                continue
+            raw = K.b64u_dec(sig)
+            world.op("ck 0 new", tag="cfg")
+            world.op("ck 0 setkey %d %d %d" % ((K.ALG_ORD[alg],) + rit), tag="cfg")
+            muts = [("valid", msg + b"." + sig, True), ("pay-char", msg[:-1] + (b"A" if msg[-1:] != b"A" else b"B") + b"." + sig, False),
+                    ("sig-removed", msg + b".", False), ("sig-trunc-end", msg + b"." + sig[:-2], False),
+                    ("sig-zero-prefix", msg + b"." + K.b64u(b"\x00" + raw).encode(), False),
+                    ("sig-zero-suffix", msg + b"." + K.b64u(raw + b"\x00").encode(), False)]
+            for _ in range(6):
+                b_ = rng.randrange(len(raw) * 8)
+                r2 = bytearray(raw)
+                r2[b_ // 8] ^= 1 << (b_ % 8)
+                muts.append(("sig-bitflip", msg + b"." + K.b64u(bytes(r2)).encode(), False))
+            for kind, tok, ok in muts:
+                metas.append((len(world.ops), {"kind": "verify", "key": rname, "alg": alg, "mut": kind, "may_accept": ok, "must_accept": ok, "prov": provider}))
+                world.op("ck 0 verify " + hx(tok), tag="verify")
     for name in names:
         key = pool.keys[name]
         for alg in key.admissible_algs():
@@ -502,12 +534,23 @@ def spec_claims_pass(policy, claims, now):
                 return False
             if name == "nbf" and not (v <= now + leeway):
                 return False
+    unknown = False
     for name in ("iss", "sub", "aud"):
         want = policy[name]
-        if want is not None:
+        if isinstance(want, tuple) and want[0] == "refused":
+            # the last claim_set for this name was refused (a value that is not UTF-8) while a check was configured or not:
+            # a refused call never switches a check off, and cannot make any value other than the previous one acceptable
+            prev = want[1]
+            if prev is None:
+                unknown = True      # nothing was configured before: the property does not say what a refused first call leaves
+            elif name not in claims or not isinstance(claims[name], str) or claims[name].encode() != prev:
+                return False
+            else:
+                unknown = True
+        elif want is not None:
             if name not in claims or not isinstance(claims[name], str) or claims[name].encode() != want:
                 return False
-    return True
+    return None if unknown else True
 
 
 def claims_suite(world, pool, tier, rng):
@@ -523,7 +566,7 @@ def claims_suite(world, pool, tier, rng):
             tok = mk_token({"alg": "none"}, claims)
         ok = spec_claims_pass(policy, claims, now)
         metas.append((len(world.ops), {"kind": "verify", "claims": json.dumps(claims)[:80], "policy": str(policy)[:120], "now": now,
-                                       "signed": signed, "may_accept": ok, "must_accept": ok, "note": note}))
+                                       "signed": signed, "may_accept": ok, "must_accept": ok is True, "note": note}))
         world.op("ck %d verify %s" % (ck, hx(tok)), tag="verify")
     default = {"exp": (True, 0), "nbf": (True, 0), "iss": None, "sub": None, "aud": None}
     # --- thresholds: (value - threshold) in -2..2, leeways, clocks
@@ -578,6 +621,7 @@ def claims_suite(world, pool, tier, rng):
     # --- configuration histories: latest call wins (exhaustive up to a length)
     alphabet = [("claimset iss " + hx(b"a"), ("iss", b"a")), ("claimset iss " + hx(b"b"), ("iss", b"b")), ("claimdel iss", ("iss", None)),
                 ("claimset aud " + hx(b"a"), ("aud", b"a")), ("claimdel aud", ("aud", None)),
+                ("claimset iss " + hx(b"z\xfcrich"), ("iss", "REFUSED")), ("claimset aud " + hx(b"\xff\xfe"), ("aud", "REFUSED")),
                 ("leeway exp -1", ("exp", (False, -1))), ("leeway exp 0", ("exp", (True, 0))), ("leeway exp 5", ("exp", (True, 5))),
                 ("leeway nbf -1", ("nbf", (False, -1))), ("leeway nbf 0", ("nbf", (True, 0))), ("leeway nbf 5", ("nbf", (True, 5)))]
     maxlen = 3 if thorough else 2
@@ -593,6 +637,9 @@ def claims_suite(world, pool, tier, rng):
         for i in s:
             world.op("ck 0 " + alphabet[i][0], tag="cfg")
             k, v = alphabet[i][1]
+            if v == "REFUSED":
+                prev = pol[k][1] if isinstance(pol[k], tuple) and pol[k] and pol[k][0] == "refused" else pol[k]
+                v = ("refused", prev)
             pol[k] = v
         for pr in probes:
             emit(0, pr, pol, 1000, False, "history")
@@ -1339,6 +1386,11 @@ def setget_suite(world, pool, tier, rng):
             want = _py_apply(m, op)
             metas.append((len(world.ops), {"kind": "setget", "op": str(op)[:80] + " (value struct reused from the previous call)", "want": want, "on": "builder-" + which}))
             world.op(_line("bl 0", which, op), tag="setget")
+            if op[0] == "set":
+                # what was stored is what this call asked for, whatever the struct held before (wider union members included)
+                metas.append((len(world.ops), {"kind": "setget", "op": "snapshot after " + str(op)[:60] + " with a reused value struct", "want": PS.show_get("json", 0, m.d),
+                                               "on": "builder-" + which}))
+                world.op("bl 0 %sget json -" % which, tag="setget")
     world.op("valreuse 0", "echo", cmp=False, tag="cfg")
     # on the jwt_t handed to callbacks (builder callback: starts from the builder's maps + iat)
     world.op("clock 1000", tag="cfg")
@@ -1608,13 +1660,16 @@ def roundtrip_suite(world, pool, tier, rng):
     # an RSA modulus whose bit length is not a multiple of 8 (signature length is ceil(bits/8) octets)
     odd = dict(pool.keys)
     odd["rsa2050"] = K.gen_key("rsa", 2050, world.ctx.scratch)
+    for rn_, rk_ in getattr(pool, "rare", {}).items():
+        odd[rn_] = rk_
     for name, key in odd.items():
         priv = world.add_key(s, key, private=True, alg_attr=None)
         pub = world.add_key(s + 1, key, private=(key.kind == "oct"), alg_attr=None)
         s += 2
         for alg in key.admissible_algs():
             a = K.ALG_ORD[alg]
-            n = per_key + (ec_extra if key.kind == "ec" else 0)
+            rare_ = name not in pool.keys
+            n = (3 if rare_ else per_key) + (ec_extra if key.kind == "ec" and not rare_ else 0)
             for i in range(n):
                 p_sign = provs[i % 2]
                 p_ver = provs[(i // 2) % 2]
@@ -1784,7 +1839,8 @@ def builder_routes_suite(world, pool, tier, rng, extra_keys=None):
                 adm = key.admissible_algs()
                 cfg_algs = [0] + sorted({K.ALG_ORD[a] for a in adm[:2]} | {1, 7, 15} | ({attr_ord} if attr_ord else set()))
                 for cfg_alg in cfg_algs:
-                    for route in ("setkey", "cb-key-only", "cb-key-alg", "setkey+cb-other", "setkey+cb-same-key-alg0", "setkey+cb-same-key-getalg"):
+                    for route in ("setkey", "cb-key-only", "cb-key-alg", "setkey+cb-other", "setkey+cb-same-key-alg0", "setkey+cb-same-key-getalg",
+                                  "setkey-pin+cb-key-with-own-alg"):
                         world.op("bl 0 new", tag="cfg")
                         admitted = private and ((attr_ord == 0 and cfg_alg != 0) or (attr_ord != 0 and (cfg_alg == 0 or cfg_alg == attr_ord)))
                         if route == "setkey":
@@ -1801,6 +1857,17 @@ def builder_routes_suite(world, pool, tier, rng, extra_keys=None):
                         elif route == "cb-key-alg":
                             world.op("bl 0 setcb key:%d:%d,alg:%d" % (it + (cfg_alg,)), tag="cfg")
                             eff_admitted, has_key, used = admitted, True, (cfg_alg or attr_ord)
+                        elif route == "setkey-pin+cb-key-with-own-alg":
+                            # an explicit algorithm is pinned; the callback hands over a key whose JWK names ANOTHER algorithm and
+                            # leaves config->alg alone: the pair is not in the admission table, generate must fail
+                            others = [a_ for a_ in key.admissible_algs() if K.ALG_ORD[a_] != cfg_alg]
+                            if attr is not None or not private or cfg_alg == 0 or K.ORD_ALG.get(cfg_alg) not in key.admissible_algs() or not others:
+                                continue
+                            it_b = world.add_key(s, key, private=True, alg_attr=others[0])
+                            s += 1
+                            world.op("bl 0 setkey %d %d %d" % ((cfg_alg,) + it), tag="cfg")
+                            world.op("bl 0 setcb key:%d:%d" % it_b, tag="cfg")
+                            eff_admitted, has_key, used = False, True, cfg_alg
                         elif route == "setkey+cb-same-key-alg0":
                             # the callback hands back the very item setkey installed and leaves the algorithm to the key
                             world.op("bl 0 setkey %d %d %d" % ((cfg_alg,) + it), tag="cfg")
@@ -2264,13 +2331,19 @@ def providers_suite(world, pool, tier, rng):
     # --- deterministic algorithms: byte-identical tokens; keys loaded under one provider used under the other
     world.op("clock 4242", tag="cfg")
     s = 400
+    # HMAC keys on both sides of the hash block sizes (64 octets for SHA-256, 128 for SHA-384/512), and the rarer key types
+    xkeys = dict(pool.keys)
+    for n_ in (63, 64, 65, 96, 127, 128, 129, 200):
+        xkeys["oct%d" % n_] = K.Key("oct", k=bytes(rng.randrange(256) for _ in range(n_)), bits=8 * n_)
+    for rn_, rk_ in getattr(pool, "rare", {}).items():
+        xkeys.setdefault(rn_, rk_)
     for load_under in PROVIDER_NAMES:
         world.op("prov name " + hx(load_under), tag="cfg")
         items = {}
-        for name, key in pool.keys.items():
+        for name, key in xkeys.items():
             items[name] = (world.add_key(s, key, private=True, alg_attr=None), world.add_key(s + 1, key, private=(key.kind == "oct"), alg_attr=None))
             s += 2
-        for name, key in pool.keys.items():
+        for name, key in xkeys.items():
             priv, pub = items[name]
             for alg in key.admissible_algs():
                 if alg == "ES256K":
